@@ -9,6 +9,9 @@ ORDERS3 = [list(p) for p in itertools.permutations(['a', 'b', 'c'])]
 ORDERS4 = [list(p) for p in itertools.permutations(['a', 'b', 'c', 'd'])]
 
 
+LEVEL = 'exploration'
+
+
 def run(chk):
     q = chk.quick
     chk.rule = (
